@@ -5,7 +5,6 @@ package c18
 
 import (
 	"fmt"
-	"strings"
 	"testing"
 
 	jl "github.com/evanphx/json-patch"
@@ -97,9 +96,6 @@ func check(c Case) ev.Verdict {
 	doc, ops, why := lib.ParseCase(c.Doc, c.Patch)
 	if why != "" {
 		return ev.Excluded(why)
-	}
-	if strings.TrimLeft(c.Doc, " \t\r\n") != c.Doc {
-		return ev.Excluded("leading whitespace (v4 decides the root type by the first byte)")
 	}
 	for _, op := range ops {
 		switch {
